@@ -12,10 +12,10 @@ theorem callTail_proto_Er (csi : CsiMethod) (cx : Cx) (lo hi : Nat) (thisE' this
     (hm : Er cx lo hi member' memberSrc) (hmnl : member'.isLit = false)
     (ha : Forall2 (fun a' a => Er cx lo hi a' a ∧ DeepEr cx lo hi a' a) rest' rest)
     (c0 : s.counter ≤ s0.counter) (ta0 : AllTA asg0) (inR : Inert idR) (nbR : noBlk idR = true)
-    (P0 : ∀ asg0'', BRgL asg0 asg0'' → ∀ σ, cx.ext σ → ∃ X Δ0, eraseAsg σ asg0'' = Δ0 ++ σ ∧ Sim X thisSrc ∧
+    (P0 : ∀ asg0'', BRgL asg0 asg0'' → ∀ σ, cx.ext σ → ∃ X Δ0, eraseAsg σ asg0'' = Δ0 ++ σ ∧ ESim X thisSrc ∧
         WinU lo hi s.counter s0.counter Δ0 ∧
         ∀ Δ2, Avoid s.counter s0.counter Δ2 → erase (Δ2 ++ (Δ0 ++ σ)) idR = (X, Δ2 ++ (Δ0 ++ σ)))
-    (hres : ∀ member'', BRg member' member'' → ∀ σ', cx.ext σ' → ∀ X, Sim X thisSrc → ∀ Xs,
+    (hres : ∀ member'', BRg member' member'' → ∀ σ', cx.ext σ' → ∀ X, ESim X thisSrc → ∀ Xs,
       resolveCall (erase σ' member'').1 ca csp csp (.arg none X :: Xs) csp =
         .call (.member (erase σ' member'').1 (.pname ca csp) csp) (.arg none X :: Xs) csp) :
     let R := callTail csi thisE' method msp callee' rest' csp (some member') (some ca) idR asg0 s0
@@ -47,13 +47,13 @@ theorem callTail_proto_Er (csi : CsiMethod) (cx : Cx) (lo hi : Nat) (thisE' this
     obtain ⟨rfl, -⟩ := he
     subst ea eg
     have hnbArgs : noBlkL ([] ++ [exprOrSpread (tempIdent s0.counter) .expr] ++ [.arg none idR] ++ more) = true := by
-      simp [noBlk_exprOrSpread .expr (noBlk_tempIdent _), noBlk_arg nbR, nb]
+      simp [noBlk_exprOrSpreadE .expr (noBlk_tempIdentE _), noBlk_argE nbR, nb]
     intro m hbr σ hσ
     obtain ⟨first'', asg3'', rfl, hfirst, hasg⟩ := ddParen_BRg_inv hbr hnbArgs
     simp only [insertThis] at hfirst
     obtain ⟨c'', as'', rfl, hcc, has⟩ := hfirst.call_inv
     obtain ⟨a0'', xs'', rfl, ha0, hxs⟩ := BRgL.cons_inv has
-    rw [BRg_noBlk (noBlk_member (noBlk_tempIdent _) (noBlk_pname _ _)) hcc, BRg_noBlk (noBlk_arg nbR) ha0]
+    rw [BRg_noBlk (noBlk_memberE (noBlk_tempIdentE _) (noBlk_pnameE _ _)) hcc, BRg_noBlk (noBlk_argE nbR) ha0]
     obtain ⟨k12, new'', rfl, h12, hnew⟩ := BRgL.append_inv hasg
     obtain ⟨asg0'', k2, rfl, h0, hk2⟩ := BRgL.append_inv h12
     obtain ⟨am'', rfl, ham⟩ := BRgL.single_inv hk2
